@@ -10,6 +10,15 @@ CLAIMED = {
     'C02': ('s5/C02', TECH + 'Real interpretation; QF_LRA uniqueness and first-variation queries',
             'C^{2s-2} continuity at every interior knot for all data (and all positive durations up to the T-all caps), uniqueness of the optimality system, and vanishing first variation against every admissible piecewise-polynomial perturbation (T-grid). The variational theorem that turns these into global minimality is classical and not re-proved.',
             'as C01; the infinite-dimensional minimality statement is the textbook consequence'),
+    'C03': ('s5/C03', TECH + 'all feasible paths of findSegment enumerated by re-execution with solver-checked prefixes; Real interpretation for the specification value, UF / node identity for route independence, concrete hint post-state per path',
+            'On every feasible path (solver-enumerated; breakpoints, coefficients and t symbolic) the result equals the k-th derivative of the specification piece at t-b_i, the path condition implies t lies in that piece (clamped), all routes (plain, hinted with every hint class, batch, index/at/iterator local-time, derivative trajectory, Deriv-enum overloads) are node-identical, and the hint equals the piece index afterwards; sequences of hinted calls. Segment counts {1,2,3,4,31,32,33}, coefficient counts {1,4,6,8,9,12}.',
+            'hint and index arguments are concrete ints enumerated by class; NaN t outside; ulp-adjacent times covered in the Real order only'),
+    'C11': ('s5/C11', TECH + 'UF / node identity with fresh variables per update and POISON for uninitialised buffers; histories enumerated exhaustively to length 3',
+            'After every operation sequence up to length 3 over {evaluate order 0/1/2, global evaluate, update same shape / other segment count / other coefficient count, rejected update, copy, assign over a warm object, derivative()} every evaluation and derivative trajectory of every live object is node-identical to a fresh object built from the data it must reflect; spline trajectories after update (both overloads) equal a fresh spline and earlier copies keep the old data.',
+            'sequence length <= 3; shapes listed in evidence'),
+    'C20': ('s5/C20', TECH + 'integer-valued fork on floor((end-start)/dt) (one path per step count 0..6, path condition solver-checked); Real interpretation for the sequence contract, UF for batch == pointwise and the Riemann-sum identity',
+            'For symbolic start <= end and dt > 0 and every step count 0..6: first sample == start, sample i == start + i dt, strictly increasing, no sample beyond end + 1e-6, end appended iff the last regular sample is more than 1e-6 short, last element within 1e-6 of end; batch == pointwise; getTrajectoryLength == left Riemann sum of ||v|| over the generated sequence; zero()/constant() factories initialised on the given breakpoints with the specified values at every t and order.',
+            'exact-real reading: IEEE floor/rounding edge cases and step counts > 6 (incl. int overflow) are outside the claim'),
     'C04': ('s5/C04', TECH + 'Real interpretation with cut at published coefficients/durations',
             'getEnergy equals the exact integral of the squared s-th derivative for EVERY coefficient set and every positive duration (cut points), on all construction/update routes incl. re-fit after an energy query; non-negativity of the closed form for N=1.',
             'as C01; sizes N<=3(4), DIM<=3(4,10)'),
